@@ -28,7 +28,7 @@ def _call_value(ex, callee, args, kwargs, st, node):
 
 def register(reg):
     reg.load("meta", "predicates", "inv")
-    reg.exec_hooks["call_value"] = _call_value
+    reg.add_hook("call_value", _call_value)
     P = ("C16",)
     # is_empty_invariant: when it says True the operation keeps (non-)emptiness
     k = reg.contract("_unary_operation:UnaryOperation.is_empty_invariant", virtual=True, attr=True, properties=P)
